@@ -1,0 +1,8 @@
+//go:build !verif
+
+package runner
+
+// verifEvent is a no-op unless the package is built with the "verif" tag
+// (see verif_on.go). Call sites pass only values that are already at
+// hand, so the call inlines away.
+func verifEvent(ev string, args ...any) {}
